@@ -936,6 +936,7 @@ impl<'p> Interp<'p> {
                 Err(f) => Ok(f),
             },
             Stmt::Unreachable => Err(Outcome::Unreachable),
+            Stmt::Raw(_) => Err(Outcome::TagError("raw statement".into())),
         }
     }
 
